@@ -690,7 +690,8 @@ def table_programs() -> list:
     """declarations of every scalar type x width x const x initializer class, and the same for
     assignments; deterministic, no randomness"""
     out = []
-    inits = ["1", "-1", "0x10", "1.5", "-1.5", "2im", "2.5im", "-2im", "-2.5im", "3ns", "1.5us", "true", '"0101"',
+    inits = ["340282366920938463463374607431768211455", "170141183460469231731687303715884105728", "18446744073709551616",
+             "1", "-1", "0x10", "1.5", "-1.5", "2im", "2.5im", "-2im", "-2.5im", "3ns", "1.5us", "true", '"0101"',
              "b", "k", "b + 1", "b * 2.0", "b / 2", "k + k", "float[32](b)", "int[8](b)", "uint(1)", "bool(b)",
              "f(1)", "measure q", "measure qq", "u", "fl", "cp", "an", "bt", "dd", "b == 1", "b ++ b", "-b", "(1)"]
     types = []
